@@ -19,8 +19,9 @@ R13.5 inside each helper every sample read goes through the same conversion
       (the per-channel branches agree).
 R13.6 every public PCM entry point reaches the single native path exactly
       once.
+R13.7 16-bit PCM outputs never wrap (saturating conversion or proved range).
 """
-from .. import sx, cfg as cfgm, guards, templates as T, decide
+from .. import sx, cfg as cfgm, guards, templates as T, decide, absint
 from ..compdb import AnalysisBroken
 
 EXPLANATION = (
@@ -46,6 +47,7 @@ def setup(rep, tier):
     rep.minimum('R13.4', 6)
     rep.minimum('R13.5', 3)
     rep.minimum('R13.6', 9)
+    rep.minimum('R13.7', 3)
 
 
 def base_type(t):
@@ -386,7 +388,66 @@ def _subst_node(e, node, repl):
     return [_subst_node(x, node, repl) if isinstance(x, list) else x for x in e]
 
 
+SATURATING = ('FLOAT2INT16', 'float2int16', 'SAT16', 'celt_float2int16', 'silk_SAT16', 'SATURATE16')
+
+
+def r13_7(rep, prog):
+    """16-bit PCM outputs never wrap: in every function of the decoder output
+    path that stores through an opus_int16 view of the caller's PCM, the value
+    stored is the result of a saturating conversion or is proved inside
+    [-32768, 32767] before narrowing (a `+=` is evaluated as old + addend)."""
+    n = 0
+    for f in prog.functions_all:
+        if not f.file.startswith('src/') or 'enc' in f.name.lower() or '_in_' in f.name or f.name.startswith(('downmix', 'opus_packet', 'opus_repack')):
+            continue
+        views = set()
+        for i, q in enumerate(f.params):
+            if base_type(q['type']) == 'opus_int16' and '*' in q['type'] and 'const' not in q['type'] and q['name'] in ('output', 'pcm', 'dst', 'out'):
+                views.add(('param', i))
+        lid, et = _typed_view(f)
+        if lid is not None and et == 'opus_int16' and any(is_voidp(q['type']) and 'const' not in q['type'] for q in f.params):
+            views.add(('local', lid))
+        if not views:
+            continue
+        an = None
+        for b_, i_, node in cfgm.CFG(f).find(lambda x: x[0] in ('assign', 'cassign')):
+            lv = sx.strip_paren(node[1] if node[0] == 'assign' else node[2])
+            if sx.kind(lv) != 'idx' or sx.key(sx.strip(lv[1])) not in views:
+                continue
+            rhs = node[2] if node[0] == 'assign' else node[3]
+            n += 1
+            rep.functions.add(f.name)
+            where = '%s:%s' % (f.file, sx.line(node))
+            inst = '%s:%s stores `%s` into 16-bit PCM without wrapping' % (prog.config, f.name, sx.show(node)[:50])
+            r0 = sx.strip_paren(rhs)
+            while sx.kind(r0) == 'cast':
+                r0 = sx.strip_paren(r0[4])
+            if node[0] == 'assign' and (sx.int_val(r0) is not None or (sx.kind(r0) == 'call' and sx.callee_name(r0) in SATURATING)):
+                rep.holds('R13.7', inst, where, 'saturating conversion %s' % (sx.callee_name(r0) if sx.kind(r0) == 'call' else 'constant'))
+                continue
+            if an is None:
+                an = absint.Analyzer(prog, f, call_summary=absint.inline_summary(prog), havoc_fields_on_call=False)
+            st = an.state_before_node(b_, i_, node)
+            if st is None:
+                continue
+            if node[0] == 'cassign':
+                v = an._binop(node[1], absint.mk(-32768, 32767), an.ev(rhs, st))
+            else:
+                op = rhs
+                while sx.kind(sx.strip_paren(op)) == 'cast':
+                    op = sx.strip_paren(op)[4]
+                v = an.ev(op, st)
+            if v is not None and absint.lo(v) >= -32768 and absint.hi(v) <= 32767:
+                rep.holds('R13.7', inst, where, 'value before narrowing in %s' % absint.show(v))
+            else:
+                rep.violated('R13.7', inst, where, 'value before narrowing to opus_int16 can be %s: loud audio wraps around to the opposite sign instead of saturating' % (absint.show(v) if v is not None else 'unbounded'),
+                             key='%s:int16-wrap' % f.name)
+    if n < 3:
+        rep.unresolved('R13.7', 'only %d stores into 16-bit PCM found in the decoder output path' % n)
+
+
 def check(rep, prog, tier):
+    r13_7(rep, prog)
     r13_1(rep, prog)
     r13_26(rep, prog)
     r13_35(rep, prog)
